@@ -2,17 +2,48 @@
 import ast
 
 from ..core import Rule, AnalysisError
-from ..rules import crash, scoped
+from ..rules import crash, scoped, sC41
 from ..engine import tables
 from ..engine.pyindex import walk_no_nested
 
 ID = 'C41'
-TECHNIQUE = 'path-sensitive save/restore dataflow on the directive-tracking visitors, table-key agreement of the directive tables, finite-kind dispatch evaluation of the directive value parser, scoped-read lint'
+TECHNIQUE = ('path-sensitive save/restore dataflow on the directive-tracking visitors, table-key agreement of the directive tables, finite-kind dispatch evaluation of the directive value parser, scoped-read lint; '
+             'path conditions (pyflow) of default stores evaluated as truth tables over the complete value domain of the directive; def-use agreement of the compared and the updated mapping of the decorator filter; '
+             'ordered-writer extraction for the layered module directives')
 DECIDES = ('V3: InterpretCompilerDirectives.visit_with_directives and CythonTransform.visit_CompilerDirectivesMixin restore the saved directives on every normal exit; '
            'TABKEYS: keys of directive_scopes, directive_types and immediate_decorator_directives are known directives; L4: every directive key read anywhere is known; '
            'L5: every kind of directive value reachable through parse_directive_list is parsed or rejected with ValueError; '
-           'SCOPED: code generation and analysis read directives from the scoped mapping (env.directives / code.globalstate.directives / self.current_directives), never from the global defaults.')
-NOT_DECIDED = 'the precedence of header / command line / cythonize options observed at run time.'
+           'SCOPED: code generation and analysis read directives from the scoped mapping (env.directives / code.globalstate.directives / self.current_directives), never from the global defaults; '
+           'C41-UDEF (rules/sC41.py): every literal default stored into a user-supplied directive mapping in the option plumbing (Options / Main / CmdLine / Build / Distutils / pyximport) is reachable only '
+           'when the user gave no value - the path condition is unsatisfiable for every explicit value class of the directive (bool: False and True; None only where None is the documented default); '
+           'C41-RUN: the "does not change the previous value" filter of InterpretCompilerDirectives compares with the same mapping it updates on the keep path, and that mapping is a private copy; '
+           'C41-LAYER: InterpretCompilerDirectives builds the module-level mapping in the order defaults (base) < compilation options (overriding write) < header comments (overriding write) '
+           'and hands that mapping to the module node.')
+NOT_DECIDED = ('the precedence of header / command line / cythonize options as far as it is established outside the sites above (CmdLine parsing, Dependencies merging per-module options, '
+               'the order in which a decorator stack is walked and merged), and everything observed at run time.')
+
+
+MUTATIONS = [
+    # (file, edit, expected rule / observed) -- tried on /tmp/strengthen/G9/scr
+    ('Cython/Compiler/Options.py', "seed C41a: configure_language_defaults `.get('binding') is None` -> `not .get('binding')`", 'C41-UDEF: caught (explicit False overwritten)'),
+    ('Cython/Compiler/Options.py', "configure_language_defaults: guard dropped, `self.compiler_directives['binding'] = True` for every .py", 'C41-UDEF: caught (unguarded)'),
+    ('Cython/Compiler/Options.py', "configure_language_defaults: guard `self.compiler_directives.get('binding', True)`", 'C41-UDEF: caught (explicit True is harmless, reported because the path is open for it)'),
+    ('pyximport/pyxbuild.py', "`elif 'set_initial_path' not in ext.cython_directives` -> `elif not ext.cython_directives.get('set_initial_path')`", 'C41-UDEF: caught'),
+    ('Cython/Build/Inline.py', "`language_level is None and 'language_level' not in cython_compiler_directives` -> `language_level is None`", 'C41-UDEF: caught (default 3 overrides the mapping)'),
+    ('Cython/Compiler/ParseTreeTransforms.py', 'seed C41b: _extract_directives compares with self.directives.get(name, missing)', 'C41-RUN: caught'),
+    ('Cython/Compiler/ParseTreeTransforms.py', '_extract_directives: `current_opt_dict[name] = value` removed', 'C41-RUN: caught (running state never recorded)'),
+    ('Cython/Compiler/ParseTreeTransforms.py', '_extract_directives: `current_opt_dict = dict(self.directives)` -> `current_opt_dict = self.directives`', 'C41-RUN: caught (alias: decorator leaks into the enclosing scope)'),
+    ('Cython/Compiler/ParseTreeTransforms.py', '__init__: options merged with `directives.setdefault(str(key), ...)`', 'C41-LAYER: caught'),
+    ('Cython/Compiler/ParseTreeTransforms.py', '__init__: base = copy of the options, then `directives.update(defaults)`', 'C41-LAYER: caught (order)'),
+    ('Cython/Compiler/ParseTreeTransforms.py', 'visit_ModuleNode: `self.directives.update(node.directive_comments)` -> loop with setdefault', 'C41-LAYER: caught'),
+    ('Cython/Compiler/ParseTreeTransforms.py', 'visit_ModuleNode: the update of the header comments removed', 'C41-LAYER: caught (missing layer)'),
+    # behaviour preserving (all silent)
+    ('Cython/Compiler/Options.py', "configure_language_defaults: early-return form, local alias `d = self.compiler_directives`, `'binding' not in d or d['binding'] is None`", None),
+    ('Cython/Compiler/Options.py', "configure_language_defaults: `self.compiler_directives.setdefault('binding', True)` (None is not an explicit value of binding)", None),
+    ('Cython/Compiler/ParseTreeTransforms.py', '_extract_directives: current_opt_dict renamed, filter inverted into `if state.get(name, missing) == value: warn; continue`', None),
+    ('Cython/Compiler/ParseTreeTransforms.py', '_extract_directives: `current_opt_dict = self.directives.copy()`, append and store swapped', None),
+    ('Cython/Compiler/ParseTreeTransforms.py', '__init__: `directives.update({str(k): copy.deepcopy(v) for k, v in compilation_directive_defaults.items()})`', None),
+]
 
 
 def rule_tabkeys(ctx):
@@ -75,4 +106,5 @@ def rule_scoped_reads(ctx):
 
 
 def run(ctx):
-    return [scoped.rule_V3_attr(ctx), rule_tabkeys(ctx), crash.rule_L4(ctx), crash.rule_L5(ctx), rule_scoped_reads(ctx)]
+    return [scoped.rule_V3_attr(ctx), rule_tabkeys(ctx), crash.rule_L4(ctx), crash.rule_L5(ctx), rule_scoped_reads(ctx),
+            sC41.rule_UDEF(ctx), sC41.rule_RUN(ctx), sC41.rule_LAYER(ctx)]
